@@ -88,10 +88,13 @@ def sec_distinct(rc: RuleCtx):
     """The part of C01 that makes a simplifier's output a strictly increasing, duplicate-free index list: every child
     range is a strict sub-range with an interior point (R1, R1b) and each step retains exactly one index of it (R2).
     Borrowed by properties that consume the reduced curve (C08: a repeated point breaks every later stage)."""
-    m = rm.build(rc, "rdp.rdp", {"cost": Obj("enum", "Metrics.smape")})
-    rm.threshold_profile(rc, m, "R1", "R1b")
-    _r1(rc, m, "rdp.rdp[smape]", lemma_metric="smape")
-    _r2_threshold(rc, m, "smape")
+    # (once per metric: the literal that keeps a range of at most two points from being split depends on it - with the wrong
+    # one the split takes the arg-max of an empty interior and the simplifier raises)
+    for mname in METRICS:
+        m = rm.build(rc, "rdp.rdp", {"cost": Obj("enum", f"Metrics.{mname}")})
+        rm.threshold_profile(rc, m, "R1", "R1b")
+        _r1(rc, m, f"rdp.rdp[{mname}]", lemma_metric=mname)
+        _r2_threshold(rc, m, mname)
     for q in ("rdp._rdp_fixed", "rdp._grdp"):
         for oname in ORDERS:
             bind = {"order": Obj("enum", f"Order.{oname}")}
